@@ -164,6 +164,23 @@ def spec_setdenom(r):
         return "GetDenom(hash of path) did not return the denomination just stored for %s" % S(pathb.hex())
 
 
+def enc_recv_setdenom(r):
+    i = r["in"]
+    return "SetDenomKeys %s %s %s" % (hx(i["base"]), trace_term(i["trace"]), lst(r["out"]["new_keys"], hx))
+
+
+def spec_recv_setdenom(r):
+    """a receive that mints a voucher records it under 0x03 || sha256(full path), path = receiving hop + packet denom"""
+    i = r["in"]
+    pathb = H(i["dp"]) + b"/" + H(i["dc"]) + b"/" + H(i["pd"])
+    want = (b"\x03" + sha(pathb)).hex()
+    if r["out"]["new_keys"] != [want] and not (r["out"]["new_keys"] == [] and r["out"]["get_ok"]):
+        return "a receive minting the voucher of %s (bank metadata pre-set: %s) wrote denom-store keys %s, expected exactly 0x03||sha256(full path) = %s" % (
+            S(pathb.hex()), i["preset"], r["out"]["new_keys"], want)
+    if not r["out"]["get_ok"]:
+        return "after a receive minting the voucher of %s (bank metadata pre-set: %s) GetDenom(hash of its full path) does not return it" % (S(pathb.hex()), i["preset"])
+
+
 # ---- C42 (pure functions; the comparison with the bank movement is on the ics20_* kinds) ------------------------
 
 def enc_rl_send(r):
@@ -474,6 +491,7 @@ KINDS = {
     "denom": dict(props=["C34"], enc=enc_denom, spec=spec_denom, exact=True),
     "escrow": dict(props=["C34"], enc=enc_escrow, spec=spec_escrow, exact=True),
     "setdenom": dict(props=["C34"], enc=enc_setdenom, spec=spec_setdenom, exact=True),
+    "recv_setdenom": dict(props=["C34"], enc=enc_recv_setdenom, spec=spec_recv_setdenom, exact=True),
     "rl_send": dict(props=["C42"], enc=enc_rl_send, spec=None, exact=False),
     "rl_recv": dict(props=["C42"], enc=enc_rl_recv, spec=None, exact=False),
     "v2reenc": dict(props=["C42"], enc=enc_v2reenc, spec=spec_v2reenc, exact=False),
